@@ -287,6 +287,9 @@ def hist_prop(line, impl):
                                 "not a superset of the allowed pattern %r; earlier events: %s"
                                 % (pos, "pattern-carrying" if e["explicit"] else "legacy", e["desc"], eff, allowed, earlier),
                                 "broker-accept-" + ("pattern" if e["explicit"] else "legacy"))
+            elif r == "returned-but-registered":
+                return ("event %d of a history on one broker context: %s was answered at once (not admitted) but its session "
+                        "id is registered; earlier events: %s" % (pos, e["desc"], earlier), "broker-registration-leak")
             elif r not in ("rejected", "badrequest"):
                 return ("event %d of a history on one broker context: %s answered irregularly: %s" % (pos, e["desc"], r[:100]),
                         "broker-history-irregular")
@@ -693,7 +696,7 @@ def gen_urls(ctx):
     """-> list of (raw url, kind, patterns to try it against)"""
     rng, thorough = ctx.rng, ctx.tier == "thorough"
     pool = url_pool()
-    out = [(u, "pool", URL_PATTERNS if thorough else URL_PATTERNS[:5] + rng.sample(URL_PATTERNS[5:], 3)) for u in pool]
+    out = [(u, "pool", URL_PATTERNS if thorough else URL_PATTERNS[:5] + rng.sample(URL_PATTERNS[5:], 1)) for u in pool]
     derived = []
     for pat in URL_PATTERNS:          # hosts around each pattern's own suffix, so that many sessions proceed
         suf = new_matcher(pat)[1]
